@@ -715,8 +715,80 @@ fn h_cmp_init_total() {
     core::mem::forget(r);
 }
 
-// (H-CMP-W-* dropped: symbolic execution of CompressionLayerWriter::write/flush did not finish in 10 min.
-//  WriterWithCount::write creates and drops a boxed `dyn Error` in its u32-conversion arm; the drop glue of
-//  `Box<dyn Error>` is unresolvable for the model checker and `std::io::Error::new` cannot be named in a
-//  kani::stub attribute on this toolchain. The compression WRITER side (block roll-over, size table,
-//  flush propagation) is therefore OUTSIDE the C01/C14 claims; see DESIGN.md.)
+// ------------------------------------------------------------------------------------------
+// H-CMP-W-*: the real CompressionLayerWriter over the position-only compressor model, which here
+// forwards NO compressed bytes (so WriterWithCount::write — whose u32-conversion arm creates and
+// drops a boxed `dyn Error` the model checker cannot resolve — is never entered)
+// (C01 block roll-over at exactly 4 MiB and size table; C14 flush reaches compressor and sink)
+// ------------------------------------------------------------------------------------------
+type DynW = InnerWriterType<'static, Rec>;
+fn sink_of_state(st: &CompressionLayerWriterState<DynW>) -> Option<&Rec> {
+    match st {
+        CompressionLayerWriterState::Ready(inner) => Some(unsafe { &*(&**inner as *const dyn LayerWriter<'static, Rec> as *const Rec) }),
+        CompressionLayerWriterState::InData(_, c) => {
+            let wc: &WriterWithCount<DynW> = c.get_ref();
+            Some(unsafe { &*(&*wc.inner as *const dyn LayerWriter<'static, Rec> as *const Rec) })
+        }
+        CompressionLayerWriterState::Empty => None,
+    }
+}
+fn mk_cwriter(in_data: bool, written: u32, table_len: usize, pos_in_block: u32) -> CompressionLayerWriter<'static, Rec> {
+    let inner: DynW = Box::new(Rec::new());
+    let mut w = CompressionLayerWriter::new(inner, &CompressionConfig::default());
+    if table_len >= 1 {
+        w.compressed_sizes.push(kani::any());
+    }
+    if table_len >= 2 {
+        w.compressed_sizes.push(kani::any());
+    }
+    if in_data {
+        let old = std::mem::replace(&mut w.state, CompressionLayerWriterState::Empty);
+        if let CompressionLayerWriterState::Ready(inner) = old {
+            let mut wc = WriterWithCount::new(inner);
+            wc.pos = pos_in_block;
+            w.state = CompressionLayerWriterState::InData(written, Box::new(brotli::CompressorWriter::new(wc, 0, 5, 22)));
+        }
+    }
+    w
+}
+
+// (the write() step itself is not decided: its `u32::try_from(count).map_err(|_| io::Error::new(..))`
+//  arms are reachable for the symbolic executor and box a `dyn Error`, whose drop glue cannot be
+//  resolved; `<Box<dyn Error> as From<&str>>::from` cannot be named in a kani::stub either)
+
+// (finalize() is not decided either: the bincode serialisation of the size table did not finish in
+//  10 min. Of the compression WRITER only flush() is within reach.)
+
+//@ props: C14
+//@ functions: <layers::compress::CompressionLayerWriter<W> as std::io::Write>::flush
+//@ bounds: writer Ready or inside a block with ANY fill 0..=4 MiB (also exactly full); any table
+//@ stubs: brotli::CompressorWriter -> position-only model whose flush records itself and flushes the inner writer (brotli contract); alloc::fmt::format; From<mla::Error> for io::Error
+//@ outside: that real brotli's flush makes all accepted input decodable (brotli contract, assumed)
+//@ replay: verif_replay_compress::cmp_flush in_data:bool written:u32
+#[kani::proof]
+#[kani::unwind(5)]
+#[kani::stub(alloc::fmt::format, nofmt)]
+#[kani::stub(<std::io::Error as std::convert::From<crate::errors::Error>>::from, cheap_from)]
+fn h_cmp_writer_flush() {
+    let in_data: bool = kani::any();
+    let written: u32 = kani::any();
+    kani::assume(u64::from(written) <= SPEC_BLOCK);
+    let mut w = mk_cwriter(in_data, written, 1, 5);
+    if let CompressionLayerWriterState::InData(_, c) = &mut w.state {
+        c.held = u64::from(written);
+    }
+    kani::cover!(in_data && u64::from(written) == SPEC_BLOCK, "flush with the block exactly full");
+    kani::cover!(!in_data, "flush between blocks");
+    let r = w.flush();
+    let okk = r.is_ok();
+    core::mem::forget(r);
+    assert!(okk, "flush on a healthy sink fails");
+    match sink_of_state(&w.state) {
+        Some(s) => assert!(s.flushes == 1, "flush reaches the inner writer"),
+        None => assert!(false, "writer left in the placeholder state by flush"),
+    }
+    if let CompressionLayerWriterState::InData(_, c) = &w.state {
+        assert!(c.flushes == 1 && c.held == 0, "the compressor is flushed first: nothing accepted stays unforwarded, whatever the fill of the block");
+    }
+    core::mem::forget(w);
+}
